@@ -19,7 +19,9 @@ from ..errors import TokenError
 
 
 class Function(Token):
-    _re = regex.compile(r'^\s*@?(?P<name>[A-Z_][\w\.]*)\(\s*', regex.IGNORECASE)
+    _re = regex.compile(
+        r'^\s*@?(?P<name>[^\W\d][\w\.]*)\(\s*', regex.IGNORECASE
+    )  # Any letter starts a name (e.g., the unknown function `ÜBER(1)`).
 
     def ast(self, tokens, stack, builder, check_n=lambda *args: True):
         from .operand import Operand
